@@ -211,7 +211,7 @@ def decide(pid, tier, seed, merged, problems, mod, here, wall, replay_mode=False
   for p in problems:
     inconclusive.append("worker %s ended with %s" % (p["worker"], p["rc"]))
   for e in merged["harness_errors"][:5]:
-    inconclusive.append("harness error: %s" % e.get("where", "") + " " + e.get("err", "")[:300])
+    inconclusive.append("harness error: %s" % e.get("where", "")[:160] + " ... " + e.get("err", "")[-700:].replace("\n", " | "))
   if not replay_mode:
     thr = mod.thresholds(tier) if hasattr(mod, "thresholds") else {}
     for name, need in thr.items():
